@@ -61,8 +61,8 @@ class Inliner:
         if isinstance(f, ast.Name) and f.id in self.mod.funcs and f.id not in PRIMITIVES:
             return self.mod.funcs[f.id], None
         if isinstance(f, ast.Attribute) and isinstance(f.value, ast.Name) and f.value.id == "self" and self.cls is not None \
-                and f.attr in self.cls.methods and f.attr not in ("encode", "decode", "__init__"):
-            return self.cls.methods[f.attr], ast.Name(id="self", ctx=ast.Load())
+                and self.prog.lookup_method(self.cls, f.attr) is not None and f.attr not in ("encode", "decode", "__init__"):
+            return self.prog.lookup_method(self.cls, f.attr), ast.Name(id="self", ctx=ast.Load())
         return None, None
 
     # ---- statements --------------------------------------------------------------------
@@ -330,6 +330,11 @@ def normalize(stmts, value_returns=False):
                 if hasattr(n, "ctx"):
                     n.ctx = ast.Load()
             flat += [s1, s2]
+        elif isinstance(s, ast.Assign) and len(s.targets) == 1 and isinstance(s.targets[0], ast.Tuple) and isinstance(s.value, ast.Tuple) \
+                and len(s.targets[0].elts) == len(s.value.elts) and _sequential_ok(s.targets[0].elts, s.value.elts):
+            # a, b = x, y with no target read by a later right-hand side: the same as a = x; b = y
+            for t, v in zip(s.targets[0].elts, s.value.elts):
+                flat.append(ast.copy_location(ast.Assign(targets=[t], value=v, lineno=s.lineno), s))
         elif isinstance(s, ast.Assign) and len(s.targets) == 1 and isinstance(s.targets[0], ast.Attribute) and isinstance(s.value, ast.IfExp):
             a = ast.copy_location(ast.Assign(targets=[copy.deepcopy(s.targets[0])], value=s.value.body, lineno=s.lineno), s)
             b = ast.copy_location(ast.Assign(targets=[copy.deepcopy(s.targets[0])], value=s.value.orelse, lineno=s.lineno), s)
@@ -358,6 +363,19 @@ def normalize(stmts, value_returns=False):
     if out and isinstance(out[-1], ast.Return) and out[-1].value is None and not value_returns:
         out = out[:-1]
     return out
+
+
+def _sequential_ok(targets, values):
+    if any(isinstance(t, ast.Starred) or not isinstance(t, (ast.Name, ast.Attribute)) for t in targets):
+        return False
+    if any(isinstance(v, ast.Starred) for v in values):
+        return False
+    for i, t in enumerate(targets):
+        key = ast.unparse(t)
+        for v in values[i + 1:]:
+            if any(isinstance(x, (ast.Name, ast.Attribute)) and ast.unparse(x) == key for x in ast.walk(v)):
+                return False
+    return True
 
 
 def _unnegate(s):
